@@ -536,24 +536,27 @@ func checkB7(c *Ctx, pr *prioRoles) {
 			if !ok || b.Comment == "recover" || !isNilConst(ret.Results[0]) {
 				continue
 			}
-			okRet := false
-			for _, e := range DomEdges(b) {
+			diff := func(x *Sym) bool {
+				return x.Op == "bin" && x.Name == "-" && isEx(x.Args[0], after) && isEx(x.Args[1], before)
+			}
+			okRet := AllPathsPass(b, func(e CondEdge) bool {
 				iff := e.From.Instrs[len(e.From.Instrs)-1].(*ssa.If)
 				cm := p.NormCmp(iff.Cond, e.Succ == 0)
-				if cm == nil || cm.Op != token.EQL || cm.LC != 0 || cm.RC != 0 {
-					continue
+				if cm == nil || cm.LC != 0 || cm.RC != 0 {
+					return false
 				}
 				l, r := deepStrip(cm.L), deepStrip(cm.R)
-				if (isEx(l, after) && r.String() == "0") || (isEx(r, after) && l.String() == "0") {
-					okRet = true // nothing allotted at all
+				if cm.Op == token.EQL && ((isEx(l, after) && r.String() == "0") || (isEx(r, after) && l.String() == "0")) {
+					return true // nothing allotted at all
 				}
-				diff := func(x *Sym) bool {
-					return x.Op == "bin" && x.Name == "-" && isEx(x.Args[0], after) && isEx(x.Args[1], before)
+				if cm.Op == token.LEQ && isEx(l, after) && r.String() == "0" {
+					return true
 				}
-				if (diff(l) && r.V == ssa.Value(dividend)) || (diff(r) && l.V == ssa.Value(dividend)) {
-					okRet = true
+				if cm.Op == token.EQL && ((diff(l) && r.V == ssa.Value(dividend)) || (diff(r) && l.V == ssa.Value(dividend))) {
+					return true
 				}
-			}
+				return false
+			})
 			if !okRet {
 				problems = append(problems, "safeDivide returns nil at "+p.InstrPos(ret)+" under "+describeEdges(p, DomEdges(b))+": neither total == 0 nor after-before == dividend, so a divider result that allots more than the dividend is accepted")
 			}
